@@ -97,6 +97,18 @@ pub(crate) fn bi64() -> BoxedStrategy<i64> {
     ]
     .boxed()
 }
+/// A table may be longer than its fields (readers ignore the rest): every third byte string gets
+/// 1–5 trailing bytes. At most `max` bytes are added.
+pub(crate) fn with_tail(raw: &[u8], max: usize) -> Vec<u8> {
+    let h = crate::engine::util::fnv1a(raw);
+    let mut v = raw.to_vec();
+    if h % 3 == 0 {
+        let n = (1 + (h / 3 % 5) as usize).min(max);
+        v.extend((0..n).map(|i| 0xA5u8.wrapping_add(i as u8)));
+    }
+    v
+}
+
 pub(crate) fn is_b16(v: u16) -> bool {
     B16.contains(&v)
 }
@@ -257,7 +269,8 @@ fn check_head(m: &HeadM, rec: &mut Rec) -> CaseResult {
         return Err(fail("head:value", format!("wrote {:?} read {:?}", v, back)));
     }
     // (b) raw macStyle with reserved bits
-    let raw = enc_head(m, m.mac);
+    let raw = with_tail(&enc_head(m, m.mac), 8);
+    rec.class_if(raw.len() > 54, "head:trailing-bytes");
     let g2 = stable!("head", &raw, |d| ReadScope::new(d).read::<HeadTable>(), |t| write_head(t), |a, b| if a == b { Ok(()) } else { Err(format!("{:?} vs {:?}", a, b)) });
     if g2 != expect {
         return Err(fail("head:gen2-bytes", diff(&g2, &expect)));
@@ -315,7 +328,8 @@ fn check_hhea(m: &HheaM, rec: &mut Rec) -> CaseResult {
     if back != v {
         return Err(fail("hhea:value", format!("wrote {:?} read {:?}", v, back)));
     }
-    let raw = enc_hhea(m, m.minor, m.reserved);
+    let raw = with_tail(&enc_hhea(m, m.minor, m.reserved), 8);
+    rec.class_if(raw.len() > 36, "hhea:trailing-bytes");
     let g2 = stable!("hhea", &raw, |d| ReadScope::new(d).read::<HheaTable>(), |t| wb::<HheaTable, _>(t), |a, b| if a == b && *a == v { Ok(()) } else { Err(format!("{:?} vs {:?}", a, b)) });
     if g2 != expect {
         return Err(fail("hhea:gen2-bytes", diff(&g2, &expect)));
@@ -374,7 +388,9 @@ fn check_maxp(m: &MaxpM, rec: &mut Rec) -> CaseResult {
     if got != expect {
         return Err(fail("maxp:written-bytes", format!("{:?}: {}", v, diff(&got, &expect))));
     }
-    let g2 = stable!("maxp", &expect, |d| ReadScope::new(d).read::<MaxpTable>(), |t| wb::<MaxpTable, _>(t), |a, b| if a == b && *a == v { Ok(()) } else { Err(format!("{:?} vs {:?} vs {:?}", a, b, v)) });
+    let raw = with_tail(&expect, 8);
+    rec.class_if(raw.len() > expect.len(), "maxp:trailing-bytes");
+    let g2 = stable!("maxp", &raw, |d| ReadScope::new(d).read::<MaxpTable>(), |t| wb::<MaxpTable, _>(t), |a, b| if a == b && *a == v { Ok(()) } else { Err(format!("{:?} vs {:?} vs {:?}", a, b, v)) });
     if g2 != expect {
         return Err(fail("maxp:gen2-bytes", diff(&g2, &expect)));
     }
@@ -447,9 +463,11 @@ fn check_hmtx(m: &HmtxM, rec: &mut Rec) -> CaseResult {
     }
     let n = m.metrics.len() + m.lsbs.len();
     let nhm = m.metrics.len();
+    let raw = with_tail(&expect, 8);
+    rec.class_if(raw.len() > expect.len(), "hmtx:trailing-bytes");
     let g2 = stable!(
         "hmtx",
-        &expect,
+        &raw,
         |d| ReadScope::new(d).read_dep::<HmtxTable<'_>>((n, nhm)),
         |t| wb::<HmtxTable<'_>, _>(t),
         |a, b| hmtx_matches(a, m).and_then(|_| hmtx_matches(b, m))
@@ -672,7 +690,9 @@ fn check_os2(m: &Os2M, rec: &mut Rec) -> CaseResult {
         return Err(fail("os2:version", format!("kind {} read back as version {}", m.kind, back.version)));
     }
     // (b) from my bytes with the original version number and reserved fsSelection bits
-    let raw = enc_os2(m, os2_version(m.kind), m.fssel);
+    let raw = with_tail(&enc_os2(m, os2_version(m.kind), m.fssel), 5);
+    rec.class_if(m.kind == 0 && raw.len() > 68, "os2:v0-length-between-68-and-78");
+    rec.class_if(m.kind > 0 && raw.len() > enc_os2(m, 0, 0).len(), "os2:trailing-bytes");
     let g2 = stable!(
         "os2",
         &raw,
